@@ -106,7 +106,11 @@ fn assoc_unit(t: &mut Tape, ctx: &mut Ctx, al: gen::Alpha) -> CheckResult {
         // interchange with right-nested (pending) factors
         let l = c(&lf, &lg, "f;g")?.tensor(&c(&lg, &lh, "g;h")?);
         let r2 = c(&lf.tensor(&lg), &lg.tensor(&lh), "(f|g);(g|h)")?;
-        require_iso(ctx, "lax-interchange", &m(ctx, &l.to_strict(), "lax (f;g)|(g;h)")?, &m(ctx, &r2.to_strict(), "lax (f|g);(g|h)")?, "lax interchange")?;
+        require_iso(ctx, "lax-interchange", &m(ctx, &l.to_strict(), "lax (f;g)|(g;h)")?, &m(ctx, &r2.clone().to_strict(), "lax (f|g);(g|h)")?, "lax interchange")?;
+        // the same with the in-place tensor: the receiver already carries the gluing of f;g
+        let mut acc = c(&lf, &lg, "f;g")?;
+        acc.tensor_assign(c(&lg, &lh, "g;h")?);
+        require_iso(ctx, "lax-interchange", &m(ctx, &acc.to_strict(), "lax (f;g) tensor_assign (g;h)")?, &m(ctx, &r2.to_strict(), "lax (f|g);(g|h)")?, "lax interchange through tensor_assign")?;
     }
     if ds.iter().all(interesting) {
         ctx.nontrivial(&ds);
